@@ -462,3 +462,42 @@ def rule_c02_r4(model: Model) -> RuleResult:
                 else:
                     r.ok()
     return r
+
+
+KIND_TEST = re.compile(r'isinstance\(VAL\b|\btype\(VAL\)|VAL is None|None is VAL|data_is_\w+\(VAL\)|VAL\.__class__')
+
+
+def rule_c02_r6(model: Model) -> RuleResult:
+    """The raw input is handed back as the converted value only after a test of its kind (equality alone crosses kinds)."""
+    r = RuleResult('C02-R6', 'a converter returns the raw input unchanged only under a test of its kind (equality alone accepts True / 1.0 for 1)',
+                   floor=2)
+    zone = conversion_zone(model)
+    for cls in family(model):
+        for f in zone[cls.qualname]:
+            if 'collect_errors' in f.name or f.name == 'into_data':
+                continue
+            cfg = cfg_of(model, f)
+            nz = Normalizer(model, f, cfg)
+            for n in cfg.live_nodes():
+                if n.kind != 'return' or n.ast is None or n.ast.value is None:
+                    continue
+                if nz.expr(n.ast.value, n) != 'VAL':
+                    continue
+                conds = []
+                for (cid, lb) in cfg.conditions_of(n):
+                    c = cfg.nodes[cid]
+                    if c.kind == 'cond' and c.ast is not None:
+                        text, pos = nz.literal(c.ast, c)
+                        conds.append(('' if pos == (lb == 'T') else 'not ') + text)
+                if not any('VAL' in c for c in conds) or 'try_convert' not in f.name:
+                    continue            # accepts every value (Any), or a helper working on an already converted value
+                r.instances += 1
+                r.analysed.add(f.qualname)
+                r.sample({'function': f.qualname, 'returns the input when': [c[:100] for c in conds]})
+                if any(KIND_TEST.search(c) for c in conds):
+                    r.ok()
+                else:
+                    r.fail(f.qualname, f"return VAL when {'; '.join(conds)[:160]}", f.loc(n.ast),
+                           "the input is accepted as it is because it compares equal to an expected value, without a test of its kind: "
+                           "True and 1.0 equal 1 (and hash alike), so from_data(True, Literal[1]) is True and from_data(1.0, Literal[1]) is 1.0")
+    return r
